@@ -376,10 +376,14 @@ def fix_starred_imports(source: str) -> str:
 
     undefined_names = get_undefined_variables(source)
     untraced_names = set()
-    for name in undefined_names:
+    # A starred import also rebinds names that something before it has bound already, so
+    # all names that are referenced are candidates, not only the otherwise undefined ones.
+    for name in sorted(undefined_names | _get_referenced_names(root)):
         if trace_result := trace_origin(name, source):
             if core.match_template(trace_result.ast, template):
                 starred_import_name_mapping[trace_result.ast].add(name)
+        elif name not in undefined_names:
+            continue
         elif not (name.startswith("__") and name.endswith("__")):  # Like __file__
             untraced_names.add(name)
 
